@@ -166,7 +166,7 @@ def selection(chk, dprog, cfg):
         owner = mir.strip_generics(b.path)
         if owner.startswith(cd.D + "attr::"):
             continue
-        n += 1
+        n += cd.site_weight(dprog, b)
         ok, why = cd.is_skip_filter(dprog, consumer, body=b, site=ct)
         if not ok and (cd.is_gathering(consumer) or (consumer is None and mir.unref(b.return_term()) == ct)):
             chk.abstain("R13.2", "iteration:%s:%s" % (owner, elem.split("::")[-1]), b.where(bb), "the members are first gathered (%s); the selection happens on the gathered list" % (consumer[1]["name"].split("::")[-1] if consumer else "returned to a flat_map"), cfg,
